@@ -88,6 +88,56 @@ theorem running_loop_never_ends (s : QState) (cs : List QCmd) (h : noExit cs) :
     | status _ | metrics _ | browse _ _ | resolve _ _ | monitor _ | other =>
       simp [process, exec, List.count_append, List.count_cons, ih _ hrest]
 
+/-- the channels of the searches a queue of commands opens -/
+def opened : List QCmd → List Nat
+  | [] => []
+  | .browse _ ch :: cs => ch :: opened cs
+  | .resolve _ ch :: cs => ch :: opened cs
+  | _ :: cs => opened cs
+
+/-- the running loop keeps every search that was open and adds the ones the queue opens -/
+theorem searches_after (s : QState) (cs : List QCmd) (h : noExit cs) :
+    (process s cs).1.searches = s.searches ++ opened cs := by
+  induction cs generalizing s with
+  | nil => simp [process, opened]
+  | cons c rest ih =>
+    have hc : ∀ ch', c ≠ .exit ch' := h c List.mem_cons_self
+    have hrest : noExit rest := fun x hx => h x (List.mem_cons_of_mem _ hx)
+    cases c with
+    | exit ch' => exact absurd rfl (hc ch')
+    | unregister n k =>
+      simp only [process, exec, opened]
+      split <;> simp [ih _ hrest]
+    | status _ | metrics _ | browse _ _ | resolve _ _ | monitor _ | other =>
+      simp [process, exec, opened, ih _ hrest]
+
+/-- **Every search open at the shutdown is told so, and that is the last thing it hears**:
+    each search that was open before the queue or is opened by a command in front of the
+    shutdown gets `SearchStopped` immediately followed by the end of its channel; and nothing
+    the shutdown emits starts a search - a browse queued behind it only has its channel closed
+    (`every_reply_settled`). -/
+theorem open_searches_stopped_last (s : QState) (before behind : List QCmd) (ch : Nat) (h : noExit before) :
+    (∀ c ∈ s.searches ++ opened before,
+      [QOut.searchStopped c, QOut.closed c] <:+: (process s (before ++ .exit ch :: behind)).2) ∧
+    ∀ o ∈ (shutdown (process s before).1 ch behind).2, ∀ c, o ≠ QOut.searchStarted c := by
+  constructor
+  · intro c hc
+    rw [shutdown_contract s before behind ch h, searches_after s before h]
+    obtain ⟨l1, l2, hsplit⟩ := List.append_of_mem hc
+    rw [hsplit]
+    simp only [List.flatMap_append, List.flatMap_cons, List.append_assoc]
+    refine ⟨(process s before).2 ++ (List.map QOut.goodbye (process s before).1.services ++
+      List.flatMap (fun c => [QOut.searchStopped c, QOut.closed c]) l1),
+      List.flatMap (fun c => [QOut.searchStopped c, QOut.closed c]) l2 ++
+        (List.map QOut.closed (List.filterMap chanOf behind) ++
+          ([QOut.reply ch "shutdown", QOut.threadEnds] ++ List.map QOut.closed (process s before).1.monitors)), ?_⟩
+    simp only [List.append_assoc]
+  · intro o ho c hoc
+    subst hoc
+    simp [shutdown] at ho
+
+example : opened [.metrics 1, .browse [0x61] 5, .other, .resolve [0x62] 6] = [5, 6] := by decide
+
 /-- once the thread has ended every call fails with `DaemonShutdown`, except `status()`, which
     reports `Shutdown` -/
 theorem calls_after_end (c : QCmd) :
